@@ -283,19 +283,24 @@ def trace_to_replay(component, events):
 
 
 def seq_component(ctx, comp, specdir, impl, emit_cfg, trace_mod, trace_cfg, gocmd, overlays, walk_mode="probe",
-                  rand_n=200, rand_len=60, extra_mc=(), walk_args=(), rand_args=(), trace_every=1, key_prefix=None):
+                  rand_n=200, rand_len=60, extra_mc=(), walk_args=(), rand_args=(), trace_every=1, key_prefix=None, env=None, emit_from=None):
     """E1 (model -> code walk over every TLC edge) + E2 (random traces validated by TLC) for one
     sequential stateful component. Returns stats dict."""
     for (mod, cfg) in extra_mc:
         ctx.model_check(specdir, mod, cfg)
-    r = ctx.model_check(specdir, impl, emit_cfg, emit=True, tag=comp + "_emit")
+    if emit_from is None:
+        r = ctx.model_check(specdir, impl, emit_cfg, emit=True, tag=comp + "_emit")
+    else:
+        r = emit_from   # the same TLC graph walked on another implementation of the same spec
+    ctx.last_emit = r
     ctx.copy_repo(overlays)
     binp = ctx.go_build(gocmd)
     outd = os.path.join(ctx.out, comp)
     os.makedirs(outd, exist_ok=True)
+    genv = dict(GOENV, **(env or {}))
     # ---- E1: walk
     ctx.run([binp, "walk", "-edges", r["out"], "-out", outd, "-mode", walk_mode, "-seed", str(ctx.seed),
-             "-traceevery", str(trace_every)] + list(walk_args), timeout=3000)
+             "-traceevery", str(trace_every)] + list(walk_args), timeout=3000, env=genv)
     ws = read_json(os.path.join(outd, "walk_stats.json"))
     log("walk %s: nodes=%d edges=%d covered=%d paths=%d steps=%d drift=%d suspects=%d whitebox=%s" % (
         comp, ws["nodes"], ws["edges_total"], ws["edges_covered"], ws["paths"], ws["steps"], ws["drift"], len(ws["suspects"]), ws["whitebox"]))
@@ -342,7 +347,7 @@ def seq_component(ctx, comp, specdir, impl, emit_cfg, trace_mod, trace_cfg, gocm
             ctx.violation("%s: abstract spec rejects event %d of a real-code trace: %s" % (comp, line - start, json.dumps(bad)[:300]), rp,
                           key="%s/trace/%s" % (kp, bad.get("ev")))
         return ws, None
-    ctx.run([binp, "rand", "-out", outd, "-n", str(rand_n), "-len", str(rand_len), "-seed", str(ctx.seed)] + list(rand_args), timeout=3000)
+    ctx.run([binp, "rand", "-out", outd, "-n", str(rand_n), "-len", str(rand_len), "-seed", str(ctx.seed)] + list(rand_args), timeout=3000, env=genv)
     rs = read_json(os.path.join(outd, "rand_stats.json"))
     ctx.cov["engines"].append({"engine": "E2 tracecheck", "component": comp, "traces": rs["traces"], "events": rs["events"], "op_count": rs["op_count"]})
     ctx.cov["samples"] += rs["samples"][:1]
@@ -367,6 +372,9 @@ def seq_component(ctx, comp, specdir, impl, emit_cfg, trace_mod, trace_cfg, gocm
 COMPONENTS = {
     "Ring": ("ring", ["ringz"], "Ring", "RingTrace", "Trace.cfg"),
     "SyncRingSeq": ("syncringseq", ["ringz"], "SyncRingSeq", "FifoTrace", "Trace.cfg"),
+    "Bits-bits": ("bits", [], "Bits", "BitsTrace", "Trace.cfg"),
+    "Bits-bitmap": ("bits", [], "Bits", "BitsTrace", "Trace.cfg"),
+    "Bits-dsz": ("bits", [], "Bits", "BitsTrace", "Trace.cfg"),
     "DList": ("dlist", [], "DList", "DListTrace", "Trace_thorough.cfg"),
     "SList": ("slist", [], "SList", "SListTrace", "Trace.cfg"),
 }
@@ -385,7 +393,10 @@ def generic_replay(ctx, rp):
     f = os.path.join(ctx.out, "replay.json")
     with open(f, "w") as fo:
         json.dump({"component": comp, "init": rp["init"], "ops": rp["ops"], "trace": []}, fo)
-    r = ctx.run([binp, "replay", "-file", f, "-out", ctx.out], timeout=600)
+    renv = dict(GOENV)
+    if comp.startswith("Bits-"):
+        renv["VERIF_FLAVOUR"] = comp.split("-", 1)[1]
+    r = ctx.run([binp, "replay", "-file", f, "-out", ctx.out], timeout=600, env=renv)
     log(r.stdout[-4000:])
     ok, line, n = ctx.validate_trace(specdir, tmod, tcfg, os.path.join(ctx.out, "replay_trace.ndjson"), tag="replay")
     if ok:
